@@ -71,9 +71,13 @@ def task(arg):
                 step = min(n - done, 200000)
                 sk.update(keys(fam, off, done, done + step))
                 done += step
-            est = float(sk.query())
             cells += 1
             case = {"p": p, "seed": sd, "n": n, "family": fam, "offset": off}
+            try:
+                est = float(sk.query())
+            except Exception as e:
+                viol.append((case, f"p={p} seed={sd} n={n}: query() raised {type(e).__name__}: {e}"))
+                continue
             if n == 0:
                 regimes.add("empty")
                 if est != 0.0:
@@ -141,7 +145,10 @@ def replay(case):
         step = min(n - done, 200000)
         sk.update(keys(case["family"], case["offset"], done, done + step))
         done += step
-    est = float(sk.query())
+    try:
+        est = float(sk.query())
+    except Exception as e:
+        return True, {"query_raised": type(e).__name__}
     if n == 0:
         return est != 0.0, {"estimate": est}
     lc = m * math.log(m / (m - n)) if n < m else float("inf")
